@@ -176,9 +176,10 @@ SumAt(hh) == bsums[hh]                  \* byte sum of the previous block of a p
 IsSel(e) == e.k = 1
 IsBlock(e) == e.k = 0
 
-(* the members of S listed in the order of (i * key) % Mod *)
-Listed(S, key) == LET slot == [p \in 1..Mod |-> IF \E i \in S : (i * key) % Mod = p - 1
-                                               THEN CHOOSE i \in S : (i * key) % Mod = p - 1 ELSE 0]
+(* the members of S listed in the order of (i * key) % Mod (Mod is prime: the node at position p is *)
+(* p times the inverse of key)                                                                      *)
+Listed(S, key) == LET inv  == CHOOSE x \in 1..(Mod - 1) : (x * key) % Mod = 1
+                      slot == [p \in 1..Mod |-> LET i == ((p - 1) * inv) % Mod IN IF i \in S THEN i ELSE 0]
                   IN SelectSeq(slot, LAMBDA n : n # 0)
 
 (* selector object s belongs to node LocOf(s) (0: a node that is never in a suffrage) *)
@@ -197,7 +198,10 @@ SelEvent(s, hh, rr, key, nf) ==
   LET S  == SufAt(hh)
       ch == Chain(S, hh, rr, SumAt(hh), LocOf(s), nf)
   IN [k |-> 1, sel |-> s, loc |-> LocOf(s), h |-> hh, r |-> rr, hs |-> SumAt(hh), key |-> key,
-      listing |-> Listed(S, key), nfail |-> nf, chain |-> ch, winner |-> Winner(ch, LocOf(s), nf)]
+      nfail |-> nf, chain |-> ch, winner |-> Winner(ch, LocOf(s), nf)]
+(* how GetNodesFunc lists the suffrage in the call of event e (not carried by the event: it is a *)
+(* function of the suffrage of that height and the key)                                         *)
+ListingOf(e) == Listed(SufAt(e.h), e.key)
 
 Changes(S) ==
      (IF "stay" \in Kinds THEN {S} ELSE {})
@@ -305,9 +309,11 @@ ChainWellFormed ==
         /\ script[i].g + 1 \in DOMAIN sufs
         /\ sufs[script[i].g + 1] = script[i].suf /\ bsums[script[i].g + 1] = script[i].hs
   /\ \A i \in SelIdx : /\ script[i].h \in 1..Len(sufs)
-                       /\ Range(script[i].listing) = SufAt(script[i].h)     \* every member listed, nobody else
-                       /\ Len(script[i].listing) = Cardinality(SufAt(script[i].h))
                        /\ script[i].hs = SumAt(script[i].h)
+  /\ (script # <<>> /\ IsSel(script[Len(script)])) =>
+        LET e == script[Len(script)] IN
+        /\ Range(ListingOf(e)) = SufAt(e.h)                  \* every member listed, nobody else,
+        /\ Len(ListingOf(e)) = Cardinality(SufAt(e.h))       \* once
 (* statement: every selected proposer is a member of the suffrage of that height - not of the one *)
 (* before the last block changed it                                                                *)
 HMember == \A i \in SelIdx : \A j \in DOMAIN script[i].chain : script[i].chain[j] \in SufAt(script[i].h)
@@ -316,7 +322,7 @@ HMember == \A i \in SelIdx : \A j \in DOMAIN script[i].chain : script[i].chain[j
 HistoryIndependent ==
   \A i, j \in SelIdx :
      (script[i].h = script[j].h /\ script[i].r = script[j].r /\ script[i].hs = script[j].hs
-      /\ Range(script[i].listing) = Range(script[j].listing))
+      /\ SufAt(script[i].h) = SufAt(script[j].h))
      => script[i].chain[1] = script[j].chain[1]
 (* implementation level: the selector as an object that lives across calls. GetNodes[g] is what     *)
 (* GetNodesFunc answers for block height g in the call's order. The pinned code asks it at every    *)
